@@ -2,12 +2,13 @@ package drive
 
 import (
 	"context"
-	"errors"
 	"crypto/rand"
 	"crypto/rsa"
 	"crypto/sha256"
 	"encoding/base64"
+	"encoding/hex"
 	"encoding/json"
+	"errors"
 	"fmt"
 	"net/http"
 	"net/http/httptest"
@@ -113,6 +114,8 @@ func (n *names) rewrite(s string) string {
 type hist struct {
 	jwtAT    bool           // access tokens are JWTs (cfg jwt=1)
 	pending  map[int]string // fault plan for the next endpoint operation (op "fault")
+	wireGT   *string        // grant_type value to put on the wire with the next token-endpoint request (op "wire")
+	wireCID  *string        // client_id value to put in the body of the next token / revocation request (op "wire")
 	store    *recStore
 	cfg      *fosite.Config
 	provider fosite.OAuth2Provider
@@ -338,11 +341,20 @@ func (h *hist) present(desc string) string {
 		return flip(randPart, len(randPart)/2) + "." + sigPart
 	case "s":
 		return randPart + "." + flip(sigPart, len(sigPart)/2)
+	case "p":
+		// trailing white space: the signature part no longer equals the stored one
+		return full + []string{" ", "\n", "\t "}[len(full)%3]
+	case "q":
+		// leading white space: the signature part is the stored one, the rest is not what was minted
+		return []string{" ", "\n"}[len(full)%2] + full
 	}
 	return full
 }
 
 func (h *hist) tokenRequest(form url.Values, clientID string, cred string) *http.Request {
+	if c := h.store.Clients[clientID]; h.wireCID != nil && c != nil && !c.IsPublic() {
+		form.Set("client_id", *h.wireCID) // (only next to HTTP Basic: a public client IS its body client_id)
+	}
 	r := httptest.NewRequest("POST", "https://as.example/token", strings.NewReader(form.Encode()))
 	r.Header.Set("Content-Type", "application/x-www-form-urlencoded")
 	c, _ := h.store.Clients[clientID]
@@ -388,6 +400,26 @@ func (h *hist) exec(line string) string {
 		h.pending = parsePlan(f[1])
 		return "ok ||  || " + h.store.dump() + " || taint="
 	}
+	if f[0] == "wire" {
+		// wire gt=<hex of the grant_type value to send with the next token-endpoint request>
+		h.wireGT, h.wireCID = nil, nil
+		if v, ok := strings.CutPrefix(f[1], "gt="); ok {
+			if b, err := hex.DecodeString(v); err == nil {
+				sv := string(b)
+				h.wireGT = &sv
+			}
+		}
+		// wire cid=<hex of the client_id to put in the BODY of the next token / revocation request of a confidential
+		// client; the request still authenticates with HTTP Basic as the operation's own client>
+		if v, ok := strings.CutPrefix(f[1], "cid="); ok {
+			if b, err := hex.DecodeString(v); err == nil {
+				sv := string(b)
+				h.wireCID = &sv
+			}
+		}
+		return "ok ||  || " + h.store.dump() + " || taint="
+	}
+	defer func() { h.wireGT, h.wireCID = nil, nil }()
 	h.store.plan, h.pending = h.pending, nil
 	defer func() { h.store.plan = nil }()
 	var out string
@@ -582,7 +614,17 @@ func (h *hist) execOp(ctx context.Context, f []string) string {
 		}
 		q := url.Values{"client_id": {f[1]}, "request_uri": {uri}}
 		for _, k := range decList(f[3]) {
-			q.Set(k, "x")
+			// values that would matter if they were honoured next to a request_uri
+			switch k {
+			case "response_mode":
+				q.Set(k, []string{"fragment", "form_post", "query"}[len(uri)%3])
+			case "response_type":
+				q.Set(k, "token")
+			case "scope":
+				q.Set(k, "admin openid")
+			default:
+				q.Set(k, "x")
+			}
 		}
 		r := httptest.NewRequest("GET", "https://as.example/auth?"+q.Encode(), nil)
 		out = h.finishAuthorize(ctx, r, decList(f[4]), decList(f[5]), f[6])
@@ -667,6 +709,13 @@ func (h *hist) taint(f []string) string {
 		}
 	}
 	h.store.handed = nil
+	// what the client was shown of the errors of this operation
+	for _, l := range takeLeaks() {
+		if !seen[l] {
+			seen[l] = true
+			out = append(out, l)
+		}
+	}
 	sort.Strings(out)
 	return encListS(out)
 }
@@ -688,6 +737,9 @@ func (h *hist) execToken(ctx context.Context, form url.Values, clientID, cred st
 }
 
 func (h *hist) execTokenWith(ctx context.Context, form url.Values, clientID, cred string, grantRequested bool) string {
+	if h.wireGT != nil {
+		form.Set("grant_type", *h.wireGT)
+	}
 	r := h.tokenRequest(form, clientID, cred)
 	ar, err := h.provider.NewAccessRequest(ctx, r, emptySession())
 	if err != nil {
@@ -754,6 +806,8 @@ func (h *hist) finishAuthorize(ctx context.Context, r *http.Request, gs, ga []st
 	if err != nil {
 		return "err " + errWire(err)
 	}
+	// the response mode the REQUEST asks for (the handlers fill in their default afterwards)
+	askedMode := string(ar.GetResponseMode())
 	for _, s := range gs {
 		ar.GrantScope(s)
 	}
@@ -778,5 +832,11 @@ func (h *hist) finishAuthorize(ctx context.Context, r *http.Request, gs, ga []st
 	if at != "" {
 		atr = ref('A', sigOf(at))
 	}
-	return fmt.Sprintf("authz code=%s at=%s id=%s", cr, atr, b01(resp.GetParameters().Get("id_token") != ""))
+	// what the accepted request echoes: the state and the redirect target (hex: they come from the wire)
+	rd := ""
+	if u := ar.GetRedirectURI(); u != nil {
+		rd = u.String()
+	}
+	return fmt.Sprintf("authz code=%s at=%s id=%s st=%s rd=%s mode=%s", cr, atr, b01(resp.GetParameters().Get("id_token") != ""),
+		hex.EncodeToString([]byte(ar.GetState())), hex.EncodeToString([]byte(rd)), askedMode)
 }
